@@ -122,6 +122,25 @@ def c15_rest(ctx, facts, nr):
         ok = bool(ps) and not bad and any(len([e for e in p.calls() if e[6] in fused_rules.READS]) == 1 for p in ps)
         ctx.ob("C15.5", "%s|no-retry" % rd.id, "a failing inner read is reported to the caller, not retried in a loop", ok, "%s:%d" % (rd.file, rd.line), None if ok else str(bad[:3]))
 
+    # ---- C15.7 the accept thread ends only on the close flag or on an error of accept() itself: nothing that can fail because of what ONE
+    # client does (setting up its connection object, asking the socket for the peer's address, a TLS handshake) may end the loop and with
+    # it the serving of everybody else
+    import server_rules as S
+    a = S.smodel(facts).a
+    accepts = set(a.call_blocks(lambda t: call_matches(t, r"connection::Listener::accept$")))
+    bad7, n7 = [], 0
+    for p in absint.explore(a, 0, None, max_visits=2, max_paths=20000):
+        if p.end[0] != "return":
+            continue
+        n7 += 1
+        for bb_, c_ in p.conds:
+            if c_ and c_[0] == "variant" and c_[2] == "Err" and c_[3]:
+                h_ = absint.head_call(c_[3])
+                if h_ is not None and h_[3] not in accepts and not re.search(r"(Mutex::<T>::lock|Condvar::wait\w*|thread::Builder::spawn\w*)$", h_[1]):
+                    bad7.append("the thread ends after %s failed" % short(h_[1]))
+    ctx.ob("C15.7", "accept-thread|ends-only-on-accept-error", "the accept thread returns only when the close flag is set or accept() itself failed; a failure while setting up one client's connection does not end it",
+           n7 > 0 and not bad7, "%s:%d" % (a.file, a.line), None if not bad7 else sorted(set(bad7))[0])
+
     # ---- C15.6 observation (not armed): the accept loop leaves on any accept() error
     ctx.note("observation (not a violation): the accept thread `break`s on any Listener::accept error; on Linux a reset connection in the backlog is still returned successfully, so no vanishing-client input is known to trigger it")
     return res
